@@ -228,7 +228,7 @@ def parse(text):
 
     while i < len(lines):
         ln = lines[i].strip()
-        if not ln:
+        if not ln or ln.startswith("#"):
             i += 1
             continue
         if ln.startswith("attribute "):
